@@ -130,7 +130,7 @@ def gap_only_lengths(g: int, s0: int, e0: int, length: int, buf: int) -> bool:
     """
     START()
     info = mkinfo(length, 10, 60, 1)
-    scs = [Scaffold("SUPER_1", [Fragment("c", s0, e0, 1), mkgap(g), Fragment("c", s0, e0, -1)])]
+    scs = [Scaffold("empty_first", []), Scaffold("SUPER_1", [Fragment("c", s0, e0, 1), mkgap(g), Fragment("c", s0, e0, -1)]), Scaffold("empty_last", [])]
     return FIN(write_and_check(scs, {"c": info}, buf))
 '''
 
@@ -145,7 +145,7 @@ def conditions(tier):
              "fragments <= 12 residues and <= 2 buffers, record <= 74 residues (one wrap at the default line length 60); through the real write_assembly on an in-memory file system",
              tier="thorough", replay="replay_write_assembly", encodes=ENC),
         Cond("write_assembly_gap_spanning_buffers", HEAD, "gap_only_lengths", 900,
-             "one scaffold F+ G F-: gap of 1..3 buffers (<= 130), buffer size symbolic: record length == AGP object length == Scaffold.length",
+             "scaffolds: a rowless one, F+ G F- (gap of 1..3 buffers, <= 130), a rowless one; buffer size symbolic: record set and order == scaffold set and order, record length == AGP object length == Scaffold.length",
              replay="replay_write_assembly", encodes=ENC),
     ]
 
@@ -183,7 +183,7 @@ def replay_write_assembly(cond, args, kwargs):
             scs = [Scaffold("SUPER_1", [Fragment("c", a["s0"], a["e0"], 1), Gap(a["g"], "scaffold"), Fragment("c", a["s1"], a["e1"], -1)]),
                    Scaffold("scaffold_7", [Fragment("d", a["s2"], a["e2"], 1)])]
         else:
-            scs = [Scaffold("SUPER_1", [Fragment("c", a["s0"], a["e0"], 1), Gap(a["g"], "scaffold"), Fragment("c", a["s0"], a["e0"], -1)])]
+            scs = [Scaffold("empty_first", []), Scaffold("SUPER_1", [Fragment("c", a["s0"], a["e0"], 1), Gap(a["g"], "scaffold"), Fragment("c", a["s0"], a["e0"], -1)]), Scaffold("empty_last", [])]
         out = Path(tmp) / "out.fa"
         write_assembly(fi, Assembly("out", scaffolds=scs), out, "FASTA", True)
         got = out.read_bytes()
